@@ -200,6 +200,8 @@ func (f *Failover) Get(
 		return f.waitForValue(withoutSkipRead(ctx), key, keyLock)
 	}
 
+	staleFound := false
+
 	// Pushing expired value with short ttl to serve during update.
 	if val, freshEnough, unexpectedBackendError := f.valueFromError(err); freshEnough {
 		if err = f.refreshStale(ctx, key, val); err != nil {
@@ -209,6 +211,7 @@ func (f *Failover) Get(
 		}
 
 		value = val
+		staleFound = true
 	} else if unexpectedBackendError != nil {
 		keyLock.err = unexpectedBackendError // Publishing failure to waiting readers.
 
@@ -238,6 +241,11 @@ func (f *Failover) Get(
 			}
 
 			if value != nil && !f.config.FailHard {
+				return value, nil
+			}
+
+			// Cached nil is a stale value too.
+			if staleFound && !f.config.FailHard {
 				return value, nil
 			}
 
